@@ -76,6 +76,21 @@ def run(tier, seed):
                 rng.shuffle(perm)
             progs.append([ci.PERMUTATION, perm, dom])
             meta.append(("perm", perm, dom))
+        # --- two faults together: a list with repeated entries whose SET is range(len(dom)), and an
+        # explicit dom shorter than the list (or longer, with missing entries)
+        for _ in range(40 if tier == "quick" else 300):
+            m = rng.randint(1, 3)
+            basep = list(range(m))
+            rng.shuffle(basep)
+            perm = basep + [rng.choice(basep) for _ in range(rng.randint(1, 3))]
+            if rng.random() < 0.5:
+                rng.shuffle(perm)
+            dom = [[names[i % len(names)], 0] for i in range(m)]
+            progs.append([ci.PERMUTATION, perm, dom])
+            meta.append(("perm", perm, dom))
+            if rng.random() < 0.5:
+                progs.append([ci.PERMUTE, [ci.ID, dom], perm])
+                meta.append(("perm", perm, dom))
         # --- permute on top of an identity of the class
         for _ in range(30 if tier == "quick" else 200):
             n = rng.randint(0, maxp)
